@@ -178,6 +178,14 @@ def random_history(rng, d, ver, nops, hid, heavy="all", reopen_p=0.03, meta_p=0.
                 continue
             kind = sh.nodes[kp]["kind"]
             q = rng.random()
+            if q < 0.03 and sh.storages():
+                # the root under a non-canonical spelling (removes every child, never the root, returns Ok)
+                st = [k for k in sh.storages() if k != ()]
+                toks = (sh.names_of(st[0]) + [".."] * len(st[0])) if st and rng.random() < 0.7 else ["."]
+                ops.append({"op": "remove_storage_all", "p": sp(toks, rng.random() < 0.5, rng.random() < 0.3)})
+                for k in [k for k in sh.nodes if k != ()]:
+                    del sh.nodes[k]
+                continue
             if q < 0.1:
                 op = "remove_storage_all"
             elif q < 0.2:
@@ -590,10 +598,15 @@ def c08_templates(tier):
                             ops.append({"op": "remove_stream", "p": sp(["a"])})
                         else:
                             ops.append({"op": "set_len", "p": sp(["a"]), "n": 0})
-                        ops += [{"op": "create_stream", "p": sp(["B"])},
+                        tail = [{"op": "create_stream", "p": sp(["B"])},
                                 {"op": "set_len", "p": sp(["B"]), "n": L2, "heavy": True},
                                 {"op": "read", "p": sp(["B"])}]
-                        out.append({"id": f"T2_v{ver}_{L0}_{L2}_{int(pin)}_{how}", "ver": ver, "heavy": "marked", "ops": ops})
+                        out.append({"id": f"T2_v{ver}_{L0}_{L2}_{int(pin)}_{how}", "ver": ver, "heavy": "marked", "ops": ops + tail})
+                        # the same with the file closed and reopened between the release and the reuse: what is known
+                        # about the released (mini) sectors then comes from the image alone
+                        if (L0 + L2) % 3 == 0 or tier == "thorough":
+                            out.append({"id": f"T2r_v{ver}_{L0}_{L2}_{int(pin)}_{how}", "ver": ver, "heavy": "marked",
+                                        "ops": ops + [{"op": "reopen", "mode": "strict" if pin else "permissive", "heavy": False}] + tail})
         # T3: across a migration in either direction, then grow again
         for (L0, L1, L2) in [(100, 5000, 6000), (5000, 100, 200), (5000, 100, 5000), (4095, 4096, 4200),
                              (4096, 4095, 4096), (9000, 60, 9000), (60, 9000, 30), (4097, 1, 4097),
